@@ -408,6 +408,15 @@ class NN:
     def _map_local(self, q, m, raw=False):
         """Insertions into dict object m (alloc identity) performed in function q."""
         s = self.summary(q)
+        # dict(d) / d.copy(): a copy of the dictionary that was filled
+        for _ in range(3):
+            mm = strip(m)
+            if is_call(mm, "builtins.dict") and len(mm[2]) == 1 and not mm[3] and head(mm[2][0]) == "alloc":
+                m = mm[2][0]
+            elif is_mcall(mm, "copy") and not mm[2] and head(strip(mm[1])[1]) == "alloc":
+                m = strip(mm[1])[1]
+            else:
+                break
         vals, keys = [], []
         for e in s.events:
             if e.kind == "setitem" and e["obj"] == m:
@@ -744,6 +753,13 @@ class NN:
                 if head(a0) in ("tuple", "list", "set") and a0[1] and all(head(strip(x)) == "tuple" and len(strip(x)[1]) == 3 for x in a0[1]):
                     for x in a0[1]:
                         cands.append((strip(x)[1], "add" if e["method"] == "update" else "append", [], []))
+                elif head(a0) == "comp" and a0[1] in ("list", "gen") and head(strip(a0[2])) == "tuple" and len(strip(a0[2])[1]) == 3:
+                    # ans.extend((i, j, d) for ... if ...)
+                    xg, xl = [], []
+                    for elem, conds in a0[3]:
+                        xl.append((None, elem[3]))
+                        xg.extend((c, True) for c in conds)
+                    cands.append((strip(a0[2])[1], "comp", xg, xl))
             elif e.kind == "augname" and e["op"] == "+":
                 v = strip(e["value"])
                 if head(v) == "comp" and v[1] == "list" and head(strip(v[2])) == "tuple" and len(strip(v[2])[1]) == 3:
